@@ -5,8 +5,9 @@ import MorfuseModel.Sched.HostOps
 /-!
 # The machine at the host level: every host operation keeps the machine-level invariant
 
-`HostOp` is the list of commands the driver (`lean/Driver/Sched.lean`) accepts, `HostOp.apply` is what the
-driver does to the machine state for each of them.  `HInv` is the invariant between two host operations:
+`HostOp` / `HostOp.apply` (`Sched/HostOps.lean`) are the commands of the driver (`lean/Driver/Sched.lean`) and
+what the driver does to the machine state for each of them (the driver calls `HostOp.apply`).  `HInv` is the
+invariant between two host operations:
 
 * `Inv [] [] none` — the machine-level invariant of `MachineInvDefs` with no exemption;
 * no current thread, execution-stack depth 0;
@@ -21,8 +22,8 @@ object); `ProgOK` is decidable.
 **Not covered** (excluded from `HostOp`): `save` / `load`.  `load` writes a snapshot taken earlier into
 the present context; objects deleted between the two would leave waiters registered on a dead source,
 so `Inv` for the loaded state needs a side condition about the host's objects that the model does not
-track.  The theorem that quantifies over *all* host operations of the driver is therefore named
-`…_partial` where it matters (`Props/C06, C07, C13`).
+track (more in `notes/schedtop-design.md`).  `reachable_inv_partial` carries the suffix for that reason; the
+machine-level sections of `Props/C06, C07, C13` say "without `save`/`load`" in their headers.
 -/
 namespace Morfuse.Sched
 open State
